@@ -231,3 +231,10 @@ Proof.
   apply andb_prop in Hc as [_ Hc]. apply negb_true_iff in Hc.
   apply has_dup_false_NoDup in Hc. cbn [gen_dyn gd_events] in Hc. rewrite map_map in Hc. exact Hc.
 Qed.
+
+(* contrapositive, as the property words it: an ill-formed definition is refused with a diagnostic *)
+Corollary ill_formed_is_refused d : ~ WF d -> exists e, front d = Err e.
+Proof.
+  intros H. destruct (front d) as [m|e] eqn:E; [|exists e; reflexivity].
+  exfalso. apply H. eapply accepted_is_wf. exact E.
+Qed.
